@@ -185,6 +185,13 @@ extend("C15", "Round 5: a member of a tier is marked as having accepted an annou
 extend("C16", "Round 5: UDP transaction matching is now inside - over the transport's run loop the map invariant transactions[k].id == k holds, a datagram is handed to exactly the transaction whose id its header carries, the part after the header is sliced only from a datagram that holds a whole header (binary.Read's success is an assumed contract), and a datagram reaches the run loop as its own copy, not as a view of the read buffer.")
 extend("C17", "Round 5: the read cache never exceeds its configured size - room is made for the whole new value before it is counted, for every number of evictions (makeRoom, removeItem, handleNewItem; the representation invariant 'size is the sum of the listed values' and the deferred run of the expiry function are listed assumptions).")
 extend("C18", "Round 5: bounded stand-in (labelled, not counted) for the segment tree and the CIDR range: real tree against a linear scan for all lists of up to 3 ranges over a 7-value domain at three bases, real blocklist against net.IPNet.Contains for all lists of up to 2 of 40 CIDR rules.")
+extend("C02", "Round 5 (batch 3): web-seed jobs are never for zero bytes and the pieces are read inside the range the downloader owns (createJobs); the cache-block loop of CachedPiece.ReadAt carries this property too.")
+extend("C06", "Round 5 (batch 3): whole-program caller whitelists - metainfo.New, metainfo.NewInfo, Session.parseMetaInfo and Session.parseInfo are reached only through the guarded doors (size-limited reader, piece-count cap, metadata size cap).")
+extend("C08", "Round 5 (batch 3): a cancel lowers the upload queue counter exactly when it removed a queued piece message (so cancels that match nothing cannot lift the per-peer cap); an announced metadata size / request queue length is only ever changed to zero when negative.")
+extend("C11", "Round 5 (batch 3): the 68 handshake bytes are taken off the stream by full reads of 20, 8, 20 and 20 bytes, however the transport fragments them.")
+extend("C13", "Round 5 (batch 3): the announced metadata size reaches the size cap as decoded (only 'negative means none' is applied), so a size of 2^32 or more cannot wrap below the cap.")
+extend("C16", "Round 5 (batch 3): a UDP announce reply of any length is parsed in bounds - the peer list is what follows a whole 20-byte header of a reply whose action is 'announce' (binary.Read's success is an assumed contract).")
+extend("C17", "Round 5 (batch 3): a cancel lowers the upload queue counter only for a removed piece message (never for a queued reject, which was not counted); a memory request whose requester has gone away (cancel channel won the select) reserves nothing.")
 
 na("C10", "liveness/progress over unbounded schedules of several goroutines: a function contract cannot state fairness or progress measures (DESIGN.md §4 C10)")
 na("C20", "data races and lock-ups quantify over schedules; the contracts are sequential and assume the single-owner discipline C20 asks to prove (DESIGN.md §4 C20)")
